@@ -7,7 +7,10 @@ Atoms == << P!Id(<<"a">>), P!Id(<<"a", "b">>), P!Id(<<"e", "x", "p">>),
             P!Q(<<"a">>), P!Q(<<"x">>), P!Q(<<"a", " ", "b">>), P!Q(<<"a", "+", "b">>), P!Q(<<"a", "_", "b">>), P!Q(<<"1", "a">>), P!Q(<<"f", "o">>),
             P!Str(<<"a">>), P!Str(<<"a", " ", "b">>), P!Str(<<"x">>),
             \* names holding quote characters, literals ending in a backslash or holding a backtick
-            P!Q(<<"i", "'", "x">>), P!Q(<<"1", "\"">>), P!Str(<<"a", "\\">>), P!Str(<<"`", "x">>) >>
+            P!Q(<<"i", "'", "x">>), P!Q(<<"1", "\"">>), P!Str(<<"a", "\\">>), P!Str(<<"`", "x">>),
+            \* names holding backslashes (a\b, a\\b, x\1, a\+b): data to whoever restores them, not a replacement template (which a\+b alone
+            \* survives); a\b also collides with `a b`, `a+b`, `a_b` after sanitisation.  (No name ENDS in a backslash: known finding D15.)
+            P!Q(<<"a", "\\", "b">>), P!Q(<<"a", "\\", "\\", "b">>), P!Q(<<"x", "\\", "1">>), P!Q(<<"a", "\\", "+", "b">>) >>
 Funs == << <<"e", "x", "p">>, <<"g">>, <<"m", "a", "x">> >>
 Calls1 == {P!Call(Funs[f], <<Atoms[i]>>) : f \in DOMAIN Funs, i \in DOMAIN Atoms}
              \cup {P!Call(Funs[f], <<Atoms[i], Atoms[j]>>) : f \in DOMAIN Funs, i \in DOMAIN Atoms, j \in DOMAIN Atoms}
@@ -26,6 +29,7 @@ Spec == Init /\ [][Next]_e
 Faithful == P!Faithful(e)
 ScanOK == P!ScanOK(e)
 ScanLossless == P!ScanLossless(e)
+TemplateLaw == P!TemplateLaw(e)
 RECURSIVE Cat(_)
 Cat(cs) == IF cs = <<>> THEN "" ELSE Head(cs) \o Cat(Tail(cs))
 Out == IOEnv.OUT_FILE
